@@ -235,7 +235,7 @@ func evalRoute(src string, rec *recorder, opts ...risor.Option) (out routeOut) {
 			out.Raw = fmt.Sprint(r)
 		}
 	}()
-	ctx, cancel := context.WithTimeout(context.Background(), 5*time.Second)
+	ctx, cancel := context.WithTimeout(context.Background(), 120*time.Second)
 	defer cancel()
 	_, err := risor.Eval(ctx, src, opts...)
 	out.Events = rec.events
